@@ -34,7 +34,7 @@ CLASS_TABLE = [
     ('derive_where_delimiter', r'^expected `;` or `,'),
     ('generic', r'^only type predicates are supported'),
     ('generic_syntax', r'^expected type to bind to'),
-    ('trait_duplicate', r'^duplicate trait with the same bound'),
+    ('trait_duplicate', r'^duplicate trait(,| with the same bound)'),
     ('repr_unknown', r'^found unknown representation'),
     ('repr_discriminant_invalid', r'require a integer representation'),
     ('default', r'^`default` is only supported if'),
